@@ -264,6 +264,13 @@ def _cursor_case(mask, docmask, fi):
                 problems.append(("project iteration",))
         else:
             # a filtered cursor is a snapshot: after the workspace changes, ALL its views still describe the same id set
+            # the caller's filter mapping is reused / mutated after find_jobs() and before the cursor is first evaluated
+            f_ = json.loads(json.dumps(flt))
+            cur3 = pr.find_jobs(f_)
+            f_.clear()
+            f_["a"] = 99
+            if sorted(j.id for j in cur3) != want or len(cur3) != len(want):
+                problems.append(("cursor follows later changes of the caller's filter mapping", sorted(j.id for j in cur3), want))
             # (a second cursor whose FIRST membership test comes after the change; `cur` has answered membership tests already)
             cur2 = pr.find_jobs(flt)
             ids2 = [j.id for j in cur2]
@@ -315,7 +322,7 @@ def _resolve(sp, doc, key):
     return cur
 
 
-def _groupby_case(mask, docmask, gi, use_default, fi):
+def _groupby_case(mask, docmask, gi, use_default, fi, oneshot=False):
     s, present = _populate(mask, docmask)
     problems = []
     try:
@@ -335,7 +342,9 @@ def _groupby_case(mask, docmask, gi, use_default, fi):
             groups = [(k, [j.id for j in g]) for k, g in cur.groupby()]
             want = {i: [i] for i, sp, doc in selected}
         else:
-            groups = [(k, [j.id for j in g]) for k, g in cur.groupby(key, default=default)]
+            # a tuple key is also given as a one-shot iterable (the parameter is documented as "str, iterable, or callable")
+            key_arg = (k_ for k_ in key) if (isinstance(key, tuple) and oneshot) else key
+            groups = [(k, [j.id for j in g]) for k, g in cur.groupby(key_arg, default=default)]
             keys = [key] if isinstance(key, str) else list(key)
             order = [k for k in keys if not k.startswith("doc.")] + [k for k in keys if k.startswith("doc.")]
             want = {}
@@ -375,6 +384,8 @@ def h_groupby(mask: int, docmask: int, gi: int, use_default: bool, fi: int):
     mask, docmask, gi, use_default, fi = ci(mask, 0, 15), ci(docmask, 0, 15), ci(gi, 0, 11), cb(use_default), ci(fi, 0, 7)
     with nt():
         problems = _groupby_case(mask, docmask, gi, use_default, fi)
+        if isinstance(GKEYS[gi], tuple):
+            problems += _groupby_case(mask, docmask, gi, use_default, fi, oneshot=True)
     reached()
     assert not problems
 
